@@ -430,6 +430,11 @@ def random_cfg(rng, allow_ga=False):
                 c["n_points"] = 32
         if c["sm"] == "GP":
             c["n_points"] = 48
+        if c.get("n_jobs", 1) != 1 and (c["sm"] == "GP" or c.get("acq_opt", "auto") not in ("auto", "sampling")):
+            # OBSERVED on the unchanged tree (recorded in notes/C07.md, not yet analysed): n_jobs=-1 together with the L-BFGS
+            # acquisition optimizer is not even repeatable with IDENTICAL inputs (parallel restarts) - a parallelism option
+            # outside the property's quantifier (num_workers=1); the axis is kept to the serial acquisition optimizer
+            c["n_jobs"] = 1
     c["cond"] = rng.random() < 0.4
     if c.get("search") in ("RS", "REGEVO") or rng.random() < 0.2:
         c["mode"] = rng.choice(["asktell", "search"])
